@@ -12,69 +12,93 @@ its dependencies and "blocks nothing", so it shields its own dependants from a f
 -/
 namespace Sched
 
-/-- terminal: nothing waiting or running, every goroutine finished -/
-def Terminal (σ : St) : Prop :=
-  ∀ s, σ.status s ≠ .waiting ∧ σ.status s ≠ .running ∧ σ.g s ≠ .afterErr
+/-- stage `s` is settled: not waiting, not running, its goroutine not between its two status writes -/
+def Settled (σ : St) (s : Nat) : Prop :=
+  σ.status s ≠ .waiting ∧ σ.status s ≠ .running ∧ σ.g s ≠ .afterErr
 
-/-- in a terminal state reached by ANY interleaving, every stage has the status prescribed by the
-final-status equations — for any solution `f` of them. -/
-theorem C02_terminal (c okf f) (hf : IsFinal c okf f) (hne : ∀ s, c.cond s ≠ .err) (as : List Act)
-    (has : ∀ a ∈ as, Respects okf a) (ht : Terminal (run c init as)) :
-    ∀ s, (run c init as).status s = f s := by
+/-- the run of a pipeline with the stages `0 … n-1` is over: every one of them is settled
+(what `Schedule` has established when it returns: `isDone` and `wg.Wait()`) -/
+def Terminal (n : Nat) (σ : St) : Prop := ∀ s, s < n → Settled σ s
+
+/-- **per stage, at every moment**: in ANY reachable state, under any interleaving, a stage that is
+settled already has the status prescribed by the final-status equations — for any solution `f` of
+them.  (Nothing is assumed about the other stages: the rest of the run may still be going on.) -/
+theorem C02_settled (c okf f) (hf : IsFinal c okf f) (hne : ∀ s, c.cond s ≠ .err) (as : List Act)
+    (has : ∀ a ∈ as, Respects okf a) (s : Nat) (hs : Settled (run c init as) s) :
+    (run c init as).status s = f s := by
   obtain ⟨hi, h⟩ := agree_run c okf f hf hne as has
   obtain ⟨g_none, g_run, run_g, g_after, g_fin, started, chk⟩ := hi
   obtain ⟨a1, a2, a3, a4, a5, a6, a7, a8⟩ := h
-  intro s
   have := gcases (run c init as) s
-  have := ht s
+  unfold Settled at hs
   grind
+
+/-- when the run is over, every stage of the pipeline has the status prescribed by the final-status
+equations — for any solution `f` of them, whatever the interleaving was. -/
+theorem C02_terminal (c okf f) (hf : IsFinal c okf f) (hne : ∀ s, c.cond s ≠ .err) (as : List Act)
+    (has : ∀ a ∈ as, Respects okf a) (n : Nat) (ht : Terminal n (run c init as)) :
+    ∀ s, s < n → (run c init as).status s = f s :=
+  fun s hs => C02_settled c okf f hf hne as has s (ht s hs)
 
 /-- **C02 (main)**: for every acyclic configuration, every assignment of outcomes / allow_failure /
 conditions and every interleaving, the status of every stage when the run is over is `final` — a
 function of the graph and the outcomes alone. -/
 theorem C02_final (c okf rank) (hac : Acyclic c rank) (hne : ∀ s, c.cond s ≠ .err)
-    (as : List Act) (has : ∀ a ∈ as, Respects okf a) (ht : Terminal (run c init as)) :
-    ∀ s, (run c init as).status s = final c okf rank s :=
-  C02_terminal c okf _ (final_isFinal c okf rank hac) hne as has ht
+    (as : List Act) (has : ∀ a ∈ as, Respects okf a) (n : Nat) (ht : Terminal n (run c init as)) :
+    ∀ s, s < n → (run c init as).status s = final c okf rank s :=
+  C02_terminal c okf _ (final_isFinal c okf rank hac) hne as has n ht
 
 /-- **C02 (determinism)**: two complete runs of the same configuration with the same task outcomes
 end with the same status for every stage, whatever the order of completions and loop steps. -/
 theorem C02_deterministic (c okf f) (hf : IsFinal c okf f) (hne : ∀ s, c.cond s ≠ .err)
-    (as bs : List Act) (has : ∀ a ∈ as, Respects okf a) (hbs : ∀ a ∈ bs, Respects okf a)
-    (hta : Terminal (run c init as)) (htb : Terminal (run c init bs)) :
-    ∀ s, (run c init as).status s = (run c init bs).status s := by
-  intro s
-  rw [C02_terminal c okf f hf hne as has hta s, C02_terminal c okf f hf hne bs hbs htb s]
+    (as bs : List Act) (has : ∀ a ∈ as, Respects okf a) (hbs : ∀ a ∈ bs, Respects okf a) (n : Nat)
+    (hta : Terminal n (run c init as)) (htb : Terminal n (run c init bs)) :
+    ∀ s, s < n → (run c init as).status s = (run c init bs).status s := by
+  intro s hs
+  rw [C02_terminal c okf f hf hne as has n hta s hs, C02_terminal c okf f hf hne bs hbs n htb s hs]
 
-/-- **C02 (error flag)**: when the run is over it reports an error iff some stage ended in
-`Error`, i.e. (by `C02_final`) iff some stage's *final* status is `error` — not a matter of timing. -/
+/-- **C02 (error flag)**: the run reports an error only if some stage's *final* status is `error`,
+and it does whenever that stage belongs to the pipeline and the run is over — not a matter of timing. -/
 theorem C02_error_flag (c okf rank) (hac : Acyclic c rank) (hne : ∀ s, c.cond s ≠ .err)
-    (as : List Act) (has : ∀ a ∈ as, Respects okf a) (ht : Terminal (run c init as)) :
-    (run c init as).gerr = true ↔ ∃ s, final c okf rank s = .error := by
-  have hfin := C02_final c okf rank hac hne as has ht
+    (as : List Act) (has : ∀ a ∈ as, Respects okf a) (n : Nat) (ht : Terminal n (run c init as)) :
+    ((run c init as).gerr = true → ∃ s, final c okf rank s = .error) ∧
+    ((∃ s, s < n ∧ final c okf rank s = .error) → (run c init as).gerr = true) := by
   have he := errInv_run c hne as
   have hi := inv_run c as
   obtain ⟨hag_i, hag⟩ := agree_run c okf _ (final_isFinal c okf rank hac) hne as has
   constructor
   · intro hg
-    obtain ⟨s, _, hs⟩ := he.e1 hg
-    exact ⟨s, by rw [← hfin s]; exact hs⟩
-  · rintro ⟨s, hs⟩
-    rw [← hfin s] at hs
+    obtain ⟨s, hgs, hs⟩ := he.e1 hg
+    refine ⟨s, ?_⟩
+    rw [← C02_settled c okf _ (final_isFinal c okf rank hac) hne as has s
+      ⟨by rw [hs]; simp, by rw [hs]; simp, by rw [hgs]; simp⟩]
+    exact hs
+  · rintro ⟨s, hsn, hs⟩
+    rw [← C02_final c okf rank hac hne as has n ht s hsn] at hs
     have hg : (run c init as).g s ≠ .none := hag.err_run s hs
     have := gcases (run c init as) s
     have h1 := hi.g_run s
-    have h2 := (ht s).2.2
+    have h2 := (ht s hsn).2.2
     have hfin' : (run c init as).g s = .fin := by grind
     exact he.e2 s hfin' hs
 
-/-- both runs report an error, or neither does -/
+/-- the error flag of a finished run is determined by the configuration and the outcomes: when all
+stages that can end in `error` belong to the pipeline, both runs report an error or neither does -/
 theorem C02_error_deterministic (c okf rank) (hac : Acyclic c rank) (hne : ∀ s, c.cond s ≠ .err)
-    (as bs : List Act) (has : ∀ a ∈ as, Respects okf a) (hbs : ∀ a ∈ bs, Respects okf a)
-    (hta : Terminal (run c init as)) (htb : Terminal (run c init bs)) :
+    (as bs : List Act) (has : ∀ a ∈ as, Respects okf a) (hbs : ∀ a ∈ bs, Respects okf a) (n : Nat)
+    (hin : ∀ s, final c okf rank s = .error → s < n)
+    (hta : Terminal n (run c init as)) (htb : Terminal n (run c init bs)) :
     (run c init as).gerr = (run c init bs).gerr := by
-  rw [Bool.eq_iff_iff, C02_error_flag c okf rank hac hne as has hta,
-    C02_error_flag c okf rank hac hne bs hbs htb]
+  have ha := C02_error_flag c okf rank hac hne as has n hta
+  have hb := C02_error_flag c okf rank hac hne bs hbs n htb
+  rw [Bool.eq_iff_iff]
+  constructor
+  · intro h
+    obtain ⟨s, hs⟩ := ha.1 h
+    exact hb.2 ⟨s, hin s hs, hs⟩
+  · intro h
+    obtain ⟨s, hs⟩ := hb.1 h
+    exact ha.2 ⟨s, hin s hs, hs⟩
 
 /-! ### What `final` says: exactly the dependants of a (non-allowed) failure are cancelled -/
 
@@ -152,5 +176,27 @@ example : Acyclic exCfg2 exRank := by
     · simp only [List.mem_singleton] at hd; subst hd; rename_i h1 h2; rcases h2 with rfl | rfl <;> simp
     · cases hd
 example : (List.range 4).map (final exCfg2 exOk exRank) = [.done, .error, .done, .canceled] := by decide
+
+/-- a complete run of the diamond (stage 1 fails): 0 runs, then 1 and 2 together, 3 is cancelled -/
+def exRun2 : List Act :=
+  [.visit 0, .decide, .ret 0 true,
+   .visit 1, .read, .decide, .visit 2, .read, .decide,
+   .ret 2 true, .ret 1 false, .post 1,
+   .visit 3, .read, .read, .decide]
+-- the hypotheses of the C02 theorems hold of it: it respects the outcomes and it is over
+example : ∀ a ∈ exRun2, Respects exOk a := by
+  intro a ha
+  simp only [exRun2, List.mem_cons, List.not_mem_nil, or_false] at ha
+  rcases ha with rfl | rfl | rfl | rfl | rfl | rfl | rfl | rfl | rfl | rfl | rfl | rfl | rfl | rfl | rfl | rfl <;>
+    simp [Respects, exOk]
+example : Terminal 4 (run exCfg2 init exRun2) := by
+  intro s hs
+  have : s = 0 ∨ s = 1 ∨ s = 2 ∨ s = 3 := by omega
+  rcases this with rfl | rfl | rfl | rfl <;> exact ⟨by decide, by decide, by decide⟩
+example : (List.range 4).map (run exCfg2 init exRun2).status = [.done, .error, .done, .canceled] ∧
+    (run exCfg2 init exRun2).gerr = true := by decide
+-- and a state in the middle of the run is not terminal (stage 3 still waiting)
+example : ¬ Terminal 4 (run exCfg2 init (exRun2.take 12)) := by
+  intro h; exact (h 3 (by omega)).1 (by decide)
 
 end Sched
